@@ -87,7 +87,12 @@ def generate(rng, prop, tier):
         for seg in plan:
             seg['a'] = min(seg['a'], 2)
     sc['plan'] = plan
-    sc['share_info'] = rng.random() < 0.4        # one progress record (info dict) reused across all segments / restarts
+    sc['share_info'] = rng.random() < 0.4
+    if kind == 'als' and rng.random() < 0.12:
+        # start (or restart) from a tensor that reproduces the noise-free data exactly: with lamb > 0 it is NOT the minimiser
+        sc['exact_start'] = True
+        sc['ydist'] = 'tt'
+        sc['r'] = 2        # one progress record (info dict) reused across all segments / restarts
     if kind == 'als_func' and sc['basis'] == 'ownlist':
         # a list of basis generators with a different number of functions per mode
         sc['n'] = [rng.choice([2, 3, 4, 5, 6]) for _ in range(d)]
@@ -187,7 +192,8 @@ def build_data(sc):
             y = predict_func(Yt, basis_mats(sc, I))
         else:
             y = predict(Yt, I)
-        y = y + 0.05 * g.standard_normal(M)
+        if not sc.get('exact_start'):
+            y = y + 0.05 * g.standard_normal(M)
     w = None
     if sc.get('w') and sc.get('kind') != 'als_func':
         wk = sc.get('wkind', 'random')
@@ -456,6 +462,9 @@ def execute_plan(sc):
     is_func = sc['kind'] == 'als_func'
     H = basis_mats(sc, I) if is_func else None
     Y0 = make_tt(sc['n'], sc['r'], sc['y0seed'], dist='uniform')
+    if sc.get('exact_start') and not is_func:
+        Y0 = make_tt(sc['n'], 2, sc['dseed'] + 1)
+        P('exact_interpolant_start')
     plan = sc['plan']
     S = sum(p['a'] for p in plan)
     runs = 0
